@@ -23,6 +23,22 @@ def remeta(rng, ps):
     return out
 
 
+def po_variant(rng, ps):
+    """the same parameters with a prefix of the positional-or-keyword ones made positional-only (the
+    positional index of every name is kept): merging with the original must give the MORE restrictive kind"""
+    out, turning = [], True
+    budget = rng.randint(1, 3)
+    for q in ps:
+        if q[1] == 'PK' and turning and budget:
+            out.append((q[0], 'PO') + tuple(q[2:]))
+            budget -= 1
+        else:
+            if q[1] != 'PO':
+                turning = False
+            out.append(q)
+    return out
+
+
 def gen(ctx):
     rng = ctx.rng('gen')
     fz = id_of_name('z')
@@ -30,7 +46,13 @@ def gen(ctx):
     cases = []
     for _ in range(n):
         k = rng.random()
-        if k < 0.35:
+        if k < 0.05:
+            base = random_sig(rng, 'abcde', 5)
+            vs = [remeta(rng, mutate(rng, base)) for j in range(rng.choice([2, 2, 3]))]
+            j = rng.randrange(len(vs))
+            vs[j] = po_variant(rng, vs[j])
+            cases.append(Merge([mk_desc(v, 100 + jj) for jj, v in enumerate(vs)]))
+        elif k < 0.35:
             base = random_sig(rng, 'abcde', 5)
             cases.append(Merge([mk_desc(remeta(rng, mutate(rng, base)), 100 + j) for j in range(rng.choice([2, 2, 3]))]))
         elif k < 0.45:
@@ -147,7 +169,7 @@ def examine_chain(c, r, ins, out, partial=False):
             out.append(('C10:order', '%s = %s: positional order of %s not kept' % (c.show(), show_sig(r), show_sig(d))))
 
 
-def examine(c, i, al_rc):
+def examine(c, i, al_rc, aligned_only=False):
     out = []
     if i[0] != 'ok':
         return out
@@ -155,6 +177,16 @@ def examine(c, i, al_rc):
     if c.op == 'merge':
         if al_rc:
             examine_merge(c, r, out)
+        elif aligned_only and len(c.ds) == 2:
+            # name-aligned inputs whose shared names differ only in positional-only vs
+            # positional-or-keyword: the positional pairing is by name, so the kind rule is decidable
+            byname = [{p[0]: p for p in d['params']} for d in c.ds]
+            for nm, k, de, an, ua in r['params']:
+                cons = [b[nm] for b in byname if nm in b]
+                if k in ('VP', 'VK') or not cons:
+                    continue
+                if len(cons) == 2 and all(q[1] in ('PO', 'PK') for q in cons) and not all(kind_ok(q[1], k) for q in cons):
+                    out.append(('C10:kind', '%s = %s: kind of %s changed from %s to %s' % (c.show(), show_sig(r), name_of(nm), [q[1] for q in cons], k)))
     elif c.op == 'embed':
         names = [p[0] for d in c.ds for p in d['params'] if p[1] in ('PO', 'PK', 'KO')]
         if len(set(names)) == len(names):
@@ -207,9 +239,9 @@ def run(ctx, rep):
             src = {p for d in inputs_of(c) for p in d['params']}
             if any(p not in src for p in i[1]['params']):
                 rep.distinct.add(c.request())
-        for key, what in examine(c, i, a == 'T' and r == 'T'):
+        for key, what in examine(c, i, a == 'T' and r == 'T', aligned_only=(a == 'T')):
             hist[key] = hist.get(key, 0) + 1
-            rep.violation(key, what, dict(c.data(), kind='examine', alrc=(a == 'T' and r == 'T')))
+            rep.violation(key, what, dict(c.data(), kind='examine', alrc=(a == 'T' and r == 'T'), aligned=(a == 'T')))
     rep.coverage['finding_histogram'] = hist
     for c, m, i in tr[:5]:
         rep.sample({'case': c.show(), 'impl': show_sig(i[1]) if i[0] == 'ok' else i[1]})
@@ -218,7 +250,7 @@ def run(ctx, rep):
 def replay(ctx, data):
     r = data['replay']
     c = case_from_data(r)
-    res = examine(c, c.impl(), r.get('alrc', False))
+    res = examine(c, c.impl(), r.get('alrc', False), aligned_only=r.get('aligned', False))
     res = [x for x in res if x[0] == data['key']] or res
     return res[0][1] if res else None
 
